@@ -80,26 +80,78 @@ def _reassigned_between(fnode, name, test, node):
     return False
 
 
-class Truth:
-    """tests -> boolean function of atoms.  `atoms`: {atom name: [normalised positive texts]}; `wrong`: {text: message}
-    shapes that are recognised as wrong outright (reported by the caller through .wrong_hits)."""
+def canon(e):
+    """Canonical text of a test: comprehension variables alpha-renamed, `not (a not in b)` / `not (a is not b)` /
+    `not not x` simplified."""
+    e = ast.parse(norm(e), mode="eval").body
 
-    def __init__(self, atoms, defs=None, free=()):
+    class Simp(ast.NodeTransformer):
+        def visit_UnaryOp(self, n):
+            self.generic_visit(n)
+            if isinstance(n.op, ast.Not):
+                o = n.operand
+                if isinstance(o, ast.UnaryOp) and isinstance(o.op, ast.Not):
+                    return o.operand
+                if isinstance(o, ast.Compare) and len(o.ops) == 1 and type(o.ops[0]) in (ast.NotIn, ast.IsNot, ast.NotEq):
+                    return ast.Compare(left=o.left, ops=[_COMPL[type(o.ops[0])]()], comparators=o.comparators)
+            return n
+    e = Simp().visit(e)
+    cnt = [0]
+
+    def rename_comp(node):
+        for n in ast.walk(node):
+            if isinstance(n, (ast.GeneratorExp, ast.ListComp, ast.SetComp, ast.DictComp)):
+                for g in n.generators:
+                    for t in ast.walk(g.target):
+                        if isinstance(t, ast.Name):
+                            old, new = t.id, "_c%d" % cnt[0]
+                            cnt[0] += 1
+                            for x in ast.walk(n):
+                                if isinstance(x, ast.Name) and x.id == old:
+                                    x.id = new
+    rename_comp(e)
+    return norm(e)
+
+
+class Truth:
+    """tests -> boolean function of atoms.  `atoms`: {atom name: [positive texts]} (compared in canonical form);
+    `fi`: the function, used to replace a local name that has a single definition by that definition;
+    `auto`: an unrecognised leaf test becomes a free atom of its own (named by its text) instead of an AnalysisError --
+    `reach` then quantifies existentially over those."""
+
+    def __init__(self, atoms, defs=None, free=(), fi=None, auto=False):
         self.atoms = atoms
-        self.defs = defs or {}      # local name -> defining expr (single definition), expanded inside tests
-        self.free = set(free)       # atom names a test may mention without being constrained (always allowed)
+        self.defs = defs or {}
+        self.fi = fi
+        self.auto = auto
+        self.auto_atoms = []
         self.by_text = {}
         for a, texts in atoms.items():
             for t in texts:
-                self.by_text[t] = a
+                try:
+                    self.by_text[canon(ast.parse(t, mode="eval").body)] = a
+                except SyntaxError:
+                    self.by_text[t] = a
+
+    def _def_of(self, name):
+        if name in self.defs:
+            return self.defs[name]
+        if self.fi is not None:
+            from .util import single_def
+            d = single_def(self.fi, name)
+            if d is not None and d[1] is not None and name not in self.fi.params:
+                return d[1]
+        return None
 
     def compile(self, e, depth=0):
         """-> python callable valuation(dict) -> bool"""
-        if depth > 6:
+        if depth > 8:
             raise AnalysisError("path condition nests too deep")
-        if norm(e) in self.by_text:
-            a0 = self.by_text[norm(e)]
+        t = canon(e)
+        if t in self.by_text:
+            a0 = self.by_text[t]
             return lambda val: val[a0]
+        e = ast.parse(t, mode="eval").body
         if isinstance(e, ast.BoolOp):
             parts = [self.compile(v, depth + 1) for v in e.values]
             if isinstance(e.op, ast.And):
@@ -111,23 +163,48 @@ class Truth:
         if isinstance(e, ast.Constant):
             v = bool(e.value)
             return lambda val: v
-        t = norm(e)
-        if t in self.by_text:
-            a = self.by_text[t]
-            return lambda val: val[a]
         if isinstance(e, ast.Compare) and len(e.ops) == 1 and type(e.ops[0]) in _COMPL:
             c = ast.Compare(left=e.left, ops=[_COMPL[type(e.ops[0])]()], comparators=e.comparators)
-            tc = norm(c)
+            tc = canon(c)
             if tc in self.by_text:
                 a = self.by_text[tc]
                 return lambda val: not val[a]
-        if isinstance(e, ast.Name) and e.id in self.defs:
-            return self.compile(self.defs[e.id], depth + 1)
+        if isinstance(e, ast.Name):
+            d = self._def_of(e.id)
+            if d is not None:
+                return self.compile(d, depth + 1)
+        if self.auto:
+            # positive form of the leaf as the atom's name
+            neg = False
+            leaf = e
+            if isinstance(e, ast.Compare) and len(e.ops) == 1 and type(e.ops[0]) in (ast.NotIn, ast.IsNot, ast.NotEq):
+                leaf = ast.Compare(left=e.left, ops=[_COMPL[type(e.ops[0])]()], comparators=e.comparators)
+                neg = True
+            nm = "?" + canon(leaf)
+            if nm not in self.auto_atoms:
+                self.auto_atoms.append(nm)
+            return (lambda val: not val.get(nm, False)) if neg else (lambda val: val.get(nm, False))
         raise AnalysisError("unrecognised test `%s` in a path condition (atoms: %s)" % (t[:80], sorted(self.atoms)))
 
     def conj(self, tests):
         fs = [(self.compile(t), pol) for t, pol in tests]
         return lambda val: all(f(val) == pol for f, pol in fs)
+
+    def reach(self, tests):
+        """valuation of the named atoms -> is the node reached for SOME valuation of the automatic atoms"""
+        f = self.conj(tests)
+        autos = list(self.auto_atoms)
+        if len(autos) > 8:
+            raise AnalysisError("path condition has too many unrecognised tests (%d)" % len(autos))
+
+        def g(val):
+            for combo in itertools.product((False, True), repeat=len(autos)):
+                v = dict(val)
+                v.update(zip(autos, combo))
+                if f(v):
+                    return True
+            return False
+        return g
 
     def table(self, tests):
         names = sorted(self.atoms)
